@@ -156,7 +156,7 @@ def run(ck):
                     ck.check(len(sc) >= 1, "C07.R3", inst + ":shuffles every epoch", fsite, "_shuffle_data is not called inside the epoch loop")
                     for r in sc[:1]:
                         env = r[5]
-                        nbt = num_term(env.get("num_batches"))
+                        nbt = num_term(argp(env, 3))  # _shuffle_data(self, pos, neg, num_batches, train, bases, z) by position
                         want = T.app("ceil", T.sym("N") * T.inv(T.sym("pb")))
                         if nbt == want:
                             ck.ok("C07.R3", inst + ":num_batches = ceil(N / pos_batch_size)", fsite)
@@ -165,16 +165,16 @@ def run(ck):
                         else:
                             ck.check(None if nbt is None or nbt.syms() == want.syms() else False, "C07.R3", inst + ":num_batches = ceil(N / pos_batch_size)", fsite,
                                      "num_batches is %r; expected ceil(N / pos_batch_size)" % (nbt,))
-                        ts = env.get("train_samples")
+                        ts = argp(env, 4)
                         ck.check(isinstance(ts, VTens) and ts.term == T.sym("data") and ts.shape == ("N", "nv"), "C07.R3", inst + ":whole data set shuffled", fsite, "the tensor handed to the shuffler is not the training data")
-                        nbs_ = num_term(env.get("neg_batch_size"))
+                        nbs_ = num_term(argp(env, 2))
                         ck.check(nbs_ == T.sym("pb"), "C07.R3", inst + ":neg_batch_size defaults to pos_batch_size", fsite, "default neg_batch_size is %r" % (nbs_,))
                         if cls != "PositiveWaveFunction":
-                            zs = env.get("z_samples")
+                            zs = argp(env, 6)
                             mask = T.app("all", T.app("cmp_Eq", T.sym("input_bases"), T.sym("lit:'Z'")), (-1,))
                             ck.check(isinstance(zs, VTens) and zs.term == T.app("index", T.sym("data"), (("adv", mask),)), "C07.R4", inst + ":z_samples = all-Z rows of the data", fsite,
                                      "the reference-basis pool is %r; expected the rows of the data whose basis is all Z" % (getattr(zs, "term", None),))
-                            ib = env.get("input_bases")
+                            ib = argp(env, 5)
                             ck.check(isinstance(ib, VTens) and ib.term == T.sym("input_bases"), "C07.R1", inst + ":bases forwarded", fsite, "the bases handed to the shuffler are not the caller's input_bases")
     ck.require_min("C07.R1", 6)
     ck.require_min("C07.R2", 7)
